@@ -7,7 +7,12 @@ ID = "C10"
 THM_MODULES = ["Minicbor.Thm.C10"]
 P = "Minicbor.C10."
 REQUIRED = [P + n for n in """compat_counterexample_K5 compat_decode_statement_false k5_benign_excludes compat_F5_repaired
-compat_not_transitive compat_missing_mandatory compat_missing_mandatory_example""".split()]
+compat_not_transitive compat_missing_mandatory compat_missing_mandatory_example compat_decode_fields compat_decode_struct_partial
+compat_add_optional_field compat_drop_field compat_unknown_variant_swallowed compat_unknown_variant_keeps_siblings
+compat_unknown_variant_error compat_refl compatFields_refl compatVars_refl compatible_refl step_compatible_field
+step_compatible_variant""".split()]
+REQUIRED += ["Minicbor.Derive." + n for n in """fieldsDec_compat fieldsDec_same runAtR_hit arrLoopN_cellsR mapLoopN_stmtsR resolveR
+stepH_piece stepH_gap dec_null_nil""".split()]
 PACKAGES = ["dgen"]
 prepare = base.prepare
 RULE = ("dcompat <writer type> <value> <reader type>: chains of type versions produced by sequences of the documented compatible edits (add an optional "
@@ -21,6 +26,19 @@ RULE = ("dcompat <writer type> <value> <reader type>: chains of type versions pr
 ASSUMPTIONS = list(base.ASSUMPTIONS) + [
     "compatibility is checked for version pairs reachable by edit sequences that never re-use a retired index with another type; the documentation "
     "does not state that restriction, without it the promise is false (machine-checked: C10.compat_not_transitive)"]
+
+
+def judge(op, impl, model, spec):
+    sw = spec.split(" ")
+    if sw[0] != "ok":
+        # no promise (the generator should not produce such pairs): model/code agreement only
+        return "ok" if impl == model and spec != "incompatible" else "corr"
+    want = " ".join(sw[:4])
+    if impl == want:
+        return "ok" if impl == model else "corr"
+    # the implementation breaks the documented promise on this input
+    if impl == model and sw[4] == "k5": return ("known", "K5")
+    return "violation"
 
 
 def streams(rng, tier):
@@ -38,17 +56,6 @@ def streams(rng, tier):
                     rows.append((f"dcompat {names[i]} {sv} {names[j]} {a} #edit:{'|'.join(x.replace(' ', '_') for x in ch.notes[min(i, j) + 1:max(i, j) + 1])}",
                                  f"dcompat {protos[i]} {sv} {protos[j]}", f"dproject {protos[i]} {sv} {protos[j]}"))
 
-    def judge(op, impl, model, spec):
-        sw = spec.split(" ")
-        if sw[0] != "ok":
-            # no promise (the generator should not produce such pairs): model/code agreement only
-            return "ok" if impl == model and spec != "incompatible" else "corr"
-        want = " ".join(sw[:4])
-        if impl == want:
-            return "ok" if impl == model else "corr"
-        # the implementation breaks the documented promise on this input
-        if impl == model and sw[4] == "k5": return ("known", "K5")
-        return "violation"
     st = Stream("derive-compat", "dgen", [r[0] for r in rows], model_ops=[r[1] for r in rows], spec_ops=[r[2] for r in rows], judge=judge, rule=RULE)
     st.shrinkable = False
     return [st]
@@ -56,4 +63,4 @@ def streams(rng, tier):
 
 def replay_streams(rp):
     op = rp["original_op"] if "original_op" in rp else rp["op"]
-    return [Stream("replay", "dgen", [op], model_ops=[rp["model_op"]], spec_ops=[rp["spec_op"]] if rp.get("spec_op") else None)]
+    return [Stream("replay", "dgen", [op], model_ops=[rp["model_op"]], spec_ops=[rp["spec_op"]] if rp.get("spec_op") else None, judge=judge)]
